@@ -555,6 +555,109 @@ fn check_artefact(a: &Art, obs: &mut Obs) -> Result<(), Fail> {
 }
 
 // =============================================================================================
+// (a'') the same artefacts in the other container framing the codecs declare they accept
+// =============================================================================================
+
+/// One transaction of test_data with one container re-framed: an output of the body (Babbage / Conway: the codec
+/// dispatches `Array | ArrayIndef => Legacy, Map | MapIndef => PostAlonzo`) or the auxiliary data
+/// (`Map | MapIndef => Shelley, Array | ArrayIndef => ShelleyMa`) switched between its definite and indefinite form.
+/// Both framings are chain-valid and both are named in the codec's own dispatch table, so the variant must decode
+/// through every era codec that decodes the original, and re-encode byte-identically.
+#[derive(Debug, Clone, Serialize, Deserialize)]
+pub struct Framed {
+    name: String,
+    site: String,
+    #[serde(with = "hexser")]
+    bytes: Vec<u8>,
+    #[serde(with = "hexser")]
+    orig: Vec<u8>,
+}
+
+fn flip_len(n: &mut cborx::Node) -> Option<&'static str> {
+    let cnt = n.count() as u64;
+    match &mut n.k {
+        cborx::Kind::Array(_, l) => {
+            let to_indef = matches!(l, cborx::Len::Def(_));
+            *l = if to_indef { cborx::Len::Indef } else { cborx::Len::Def(cborx::W::min_for(cnt)) };
+            Some(if to_indef { "array-to-indef" } else { "array-to-def" })
+        }
+        cborx::Kind::Map(_, l) => {
+            let to_indef = matches!(l, cborx::Len::Def(_));
+            *l = if to_indef { cborx::Len::Indef } else { cborx::Len::Def(cborx::W::min_for(cnt)) };
+            Some(if to_indef { "map-to-indef" } else { "map-to-def" })
+        }
+        _ => None,
+    }
+}
+
+fn framed_variants(arts: &[Art]) -> Vec<Framed> {
+    let mut out = vec![];
+    for a in arts {
+        if a.kind != "tx" || a.name.starts_with("byron") {
+            continue;
+        }
+        let Ok(root) = cborx::read(&a.bytes) else { continue };
+        let Some(items) = root.as_array() else { continue };
+        if items.len() < 3 {
+            continue;
+        }
+        // outputs (body key 1) and the collateral return (key 16)
+        let n_out = items[0].map_get(1).map(|o| o.count()).unwrap_or(0);
+        for j in 0..n_out {
+            let mut r = root.clone();
+            let o = r.nth_mut(0).and_then(|b| b.map_get_mut(1)).and_then(|o| o.nth_mut(j));
+            if let Some(what) = o.and_then(flip_len) {
+                out.push(Framed { name: a.name.clone(), site: format!("output:{what}"), bytes: cborx::write(&r), orig: a.bytes.clone() });
+            }
+        }
+        let mut r = root.clone();
+        if let Some(what) = r.nth_mut(0).and_then(|b| b.map_get_mut(16)).and_then(flip_len) {
+            out.push(Framed { name: a.name.clone(), site: format!("collateral-return:{what}"), bytes: cborx::write(&r), orig: a.bytes.clone() });
+        }
+        let mut r = root.clone();
+        let last = items.len() - 1;
+        if let Some(what) = r.nth_mut(last).and_then(flip_len) {
+            out.push(Framed { name: a.name.clone(), site: format!("auxiliary-data:{what}"), bytes: cborx::write(&r), orig: a.bytes.clone() });
+        }
+    }
+    out
+}
+
+fn check_framed(f: &Framed, obs: &mut Obs) -> Result<(), Fail> {
+    let mut n = 0;
+    macro_rules! era {
+        ($ty:ty, $era:expr, $outputs_declared:expr) => {
+            if minicbor::decode::<$ty>(&f.orig).is_ok() && ($outputs_declared || f.site.starts_with("auxiliary-data")) {
+                n += 1;
+                match minicbor::decode::<$ty>(&f.bytes) {
+                    Err(e) => pv_fail!(
+                        format!("declared-framing-refused:{}:{}", $era, f.site),
+                        "{}: the {} codec decodes the artefact but not the same artefact with its {} ({} bytes): {e}", f.name, $era, f.site, f.bytes.len()
+                    ),
+                    Ok(tx) => {
+                        let re = minicbor::to_vec(&tx).map_err(|e| Fail { sig: "encode-error:tx".into(), msg: e.to_string() })?;
+                        if re != f.bytes {
+                            return Err(not_iso(&format!("tx/{}:{}", $era, f.site), &f.name, &f.bytes, &re));
+                        }
+                    }
+                }
+                obs.class(format!("framed:{}:{}", $era, f.site));
+            }
+        };
+    }
+    era!(conway::Tx, "conway", true);
+    era!(babbage::Tx, "babbage", true);
+    // the Alonzo output is a derived record (no dispatch table): only the auxiliary data is declared there
+    era!(alonzo::Tx, "alonzo", false);
+    if n == 0 {
+        obs.discard();
+    } else {
+        obs.nontrivial_key(fnv64(&f.bytes));
+    }
+    Ok(())
+}
+
+// =============================================================================================
 // (a') Byron chain data: standalone headers and the shape oracle against real bytes
 // =============================================================================================
 
@@ -1195,7 +1298,9 @@ pub fn run(s: &Session) {
         [era, block] tag (transactions: through every era's Tx type that accepts them) and re-encoded; plus decode(to_vec(inner)) == inner with full \
         consumption for every KeepRaw part reached (header, bodies, witness sets, auxiliary data, outputs, datums, scripts, redeemers) and strict \
         isomorphism of the header bytes taken out of each block. Non-trivial artefact = a block with >= 1 transaction, a transaction or a header; \
-        distinct = distinct bytes. (a') every Byron artefact of test_data (blocks incl. the epoch-boundary block, byron*.tx, byron1.header): the header \
+        distinct = distinct bytes. (a'') every post-Byron transaction of test_data once more per output / collateral return / auxiliary data, with that \
+        one container switched between definite and indefinite framing (both are named in the codec's dispatch table): must decode through the codecs that \
+        decode the original and re-encode byte-identically. (a') every Byron artefact of test_data (blocks incl. the epoch-boundary block, byron*.tx, byron1.header): the header \
         is cut out of the block with the independent reader, decoded on its own as byron::BlockHead / byron::EbbHead (no KeepRaw) and must re-encode \
         byte-identically with full consumption; the decoded header / block / transaction must have, item by item, the shape the Byron CDDL gives it \
         (shape oracle written with cborx: array lengths, variant numbers, field positions, tag 24 / 258 wrapping, definite/indefinite form, minimal heads). \
@@ -1242,7 +1347,10 @@ pub fn run(s: &Session) {
         .cloned()
         .collect();
     s.note("artefacts_byron", serde_json::json!(byron_arts.len()));
+    let framed = framed_variants(&arts);
+    s.note("artefacts_reframed", serde_json::json!(framed.len()));
     s.foreach("corpus-isomorphism", arts, true, check_artefact);
+    s.foreach("declared-framings", framed, true, check_framed);
     s.foreach("byron-chain-shape", byron_arts, true, check_byron_chain);
     s.note("artefacts_not_decoded_by_the_library", serde_json::json!(UNDECODABLE.load(AO::Relaxed)));
     if !s.replaying() {
